@@ -171,58 +171,78 @@ Qed.
 (* ---- SET PASSWORD FOR "name" = 'literal' ---- *)
 Definition quoted_name (u : text) : text := 34 :: flat_map qi_escape u ++ [34].
 
-Lemma name_rest_quoted u rest : name_rest (quoted_name u ++ rest) = Some rest.
+(* what may follow the user name: nothing, a blank, or the '=' *)
+Definition name_end (rest : text) : Prop := match rest with [] => True | c :: _ => name_char c = false /\ c <> 34 end.
+
+Lemma name_more_stop f rest : name_end rest -> name_more f rest = rest.
 Proof.
-  unfold quoted_name, name_rest. cbn [app]. cbn [Z.eqb Pos.eqb]. rewrite <- app_assoc. cbn [app].
-  apply (quoted_rest_escaped qi_escape 34 qi_escape_cases); try lia. rewrite !app_length. cbn. lia.
+  intros H. destruct f; [reflexivity|]. destruct rest as [|c r]; [reflexivity|]. cbn in H. destruct H as [Hn Hq].
+  cbn [name_more]. destruct (Z.eqb_spec c 34) as [|_]; [contradiction|]. rewrite Hn. reflexivity.
 Qed.
 
-Lemma match_set_clause p ws1 f ws2 u ws3 ws4 pw rest :
-  spells (ts "password") p -> all_space ws1 -> ws1 <> [] -> spells (ts "for") f -> f <> [] -> starts_nonspace f ->
-  all_space ws2 -> ws2 <> [] -> all_space ws3 -> all_space ws4 ->
-  match_set (p ++ ws1 ++ f ++ ws2 ++ quoted_name u ++ ws3 ++ 61 :: ws4 ++ quote_string pw ++ rest)
-  = Some (p ++ ws1 ++ f ++ ws2 ++ quoted_name u ++ ws3 ++ 61 :: ws4, rest).
+Lemma name_end_eq ws x : all_space ws -> name_end (ws ++ 61 :: x).
 Proof.
-  intros Hp H1 Hne1 Hf Hfne Hfs H2 Hne2 H3 H4. unfold match_set. rewrite Hp. cbn [option_bind].
+  intros H. destruct ws as [|c ws]; cbn; [split; [reflexivity|lia]|]. inversion H as [|? ? Hc _]; subst.
+  unfold name_char. rewrite Hc. cbn. split; [reflexivity|]. intros ->. discriminate Hc.
+Qed.
+
+Lemma name_rest_quoted u rest : name_end rest -> name_rest (quoted_name u ++ rest) = Some rest.
+Proof.
+  intros He. unfold quoted_name, name_rest. cbn [app]. cbn [Z.eqb Pos.eqb]. rewrite <- app_assoc. cbn [app].
+  rewrite (quoted_rest_escaped qi_escape 34 qi_escape_cases); try lia.
+  - cbn [option_bind]. rewrite name_more_stop by exact He. reflexivity.
+  - rewrite !app_length. cbn. lia.
+Qed.
+
+(* a user name written as a bare part directly followed by a quoted part (abc"u": the scanner drops the bare part) *)
+Definition name_text (w : text) : Prop := Forall (fun c => name_char c = true) w.
+
+Lemma skip_name_app w t : name_text w -> (match t with [] => True | c :: _ => name_char c = false end) -> skip_name (w ++ t) = t.
+Proof.
+  induction 1 as [|c w Hc Hw IH]; intros Ht; cbn.
+  - destruct t as [|c t]; [reflexivity|]. cbn. rewrite Ht. reflexivity.
+  - rewrite Hc. apply IH. exact Ht.
+Qed.
+
+Lemma name_rest_parts w u rest : name_text w -> w <> [] -> name_end rest -> name_rest (w ++ quoted_name u ++ rest) = Some rest.
+Proof.
+  intros Hw Hne He. destruct w as [|c w]; [congruence|]. inversion Hw as [|? ? Hc Hw']; subst.
+  unfold name_rest. cbn [app].
+  assert (c <> 34) by (intros ->; discriminate Hc). destruct (Z.eqb_spec c 34) as [|_]; [contradiction|]. rewrite Hc.
+  rewrite (skip_name_app w (quoted_name u ++ rest) Hw') by reflexivity.
+  unfold quoted_name. cbn [app length name_more]. cbn [Z.eqb Pos.eqb]. rewrite <- app_assoc. cbn [app].
+  rewrite (quoted_rest_escaped qi_escape 34 qi_escape_cases); try lia.
+  - rewrite name_more_stop by exact He. reflexivity.
+  - rewrite !app_length. cbn. lia.
+Qed.
+
+(* a spelling of a user name: the name recogniser consumes exactly it in front of a blank or '=' *)
+Definition name_spelling (nm : text) : Prop := forall x, name_end x -> name_rest (nm ++ x) = Some x.
+
+Lemma quoted_name_spelling u : name_spelling (quoted_name u).
+Proof. intros x Hx. apply name_rest_quoted. exact Hx. Qed.
+Lemma parts_name_spelling w u : name_text w -> w <> [] -> name_spelling (w ++ quoted_name u).
+Proof. intros Hw Hne x Hx. rewrite <- app_assoc. apply name_rest_parts; assumption. Qed.
+
+Lemma match_set_clause p ws1 f ws2 nm ws3 ws4 pw rest :
+  spells (ts "password") p -> all_space ws1 -> ws1 <> [] -> spells (ts "for") f -> f <> [] -> starts_nonspace f ->
+  all_space ws2 -> ws2 <> [] -> name_spelling nm -> nm <> [] -> starts_nonspace nm -> all_space ws3 -> all_space ws4 ->
+  match_set (p ++ ws1 ++ f ++ ws2 ++ nm ++ ws3 ++ 61 :: ws4 ++ quote_string pw ++ rest)
+  = Some (p ++ ws1 ++ f ++ ws2 ++ nm ++ ws3 ++ 61 :: ws4, rest).
+Proof.
+  intros Hp H1 Hne1 Hf Hfne Hfs H2 Hne2 Hnm Hnmne Hnms H3 H4. unfold match_set. rewrite Hp. cbn [option_bind].
   rewrite (skip_space1_app ws1 _ H1 Hne1); [|destruct f; [congruence|exact Hfs]]. cbn [option_bind].
   rewrite Hf. cbn [option_bind].
-  rewrite (skip_space1_app ws2 _ H2 Hne2); [|reflexivity]. cbn [option_bind].
-  rewrite name_rest_quoted. cbn [option_bind].
+  rewrite (skip_space1_app ws2 _ H2 Hne2); [|destruct nm; [congruence|exact Hnms]]. cbn [option_bind].
+  rewrite (Hnm _ (name_end_eq ws3 _ H3)). cbn [option_bind].
   rewrite (skip_space_app ws3 (61 :: ws4 ++ quote_string pw ++ rest) H3 ltac:(reflexivity)).
   cbn [Z.eqb Pos.eqb]. rewrite (skip_space_app ws4 _ H4 (quote_starts_nonspace pw rest)).
   rewrite lit_rest_quote. cbn [option_bind]. f_equal. f_equal.
-  replace (p ++ ws1 ++ f ++ ws2 ++ quoted_name u ++ ws3 ++ 61 :: ws4 ++ quote_string pw ++ rest)
-    with ((p ++ ws1 ++ f ++ ws2 ++ quoted_name u ++ ws3 ++ 61 :: ws4) ++ quote_string pw ++ rest).
+  replace (p ++ ws1 ++ f ++ ws2 ++ nm ++ ws3 ++ 61 :: ws4 ++ quote_string pw ++ rest)
+    with ((p ++ ws1 ++ f ++ ws2 ++ nm ++ ws3 ++ 61 :: ws4) ++ quote_string pw ++ rest).
   - apply prefix_of_app.
   - rewrite <- ?app_assoc. cbn [app]. rewrite <- ?app_assoc. reflexivity.
 Qed.
-
-(* C15, SET PASSWORD: any user name (quoted as QuoteIdent quotes it), any layout around FOR and '=', any password *)
-Theorem sanitize_set_exact pre p ws1 f ws2 u ws3 ws4 pw post :
-  Forall (fun c => ci 112 c = false) pre ->
-  spells (ts "password") p -> p <> [] -> all_space ws1 -> ws1 <> [] -> spells (ts "for") f -> f <> [] -> starts_nonspace f ->
-  all_space ws2 -> ws2 <> [] -> all_space ws3 -> all_space ws4 ->
-  redact_all match_set 0 (pre ++ (p ++ ws1 ++ f ++ ws2 ++ quoted_name u ++ ws3 ++ 61 :: ws4) ++ quote_string pw ++ post)
-  = pre ++ (p ++ ws1 ++ f ++ ws2 ++ quoted_name u ++ ws3 ++ 61 :: ws4) ++ redacted ++ redact_all match_set 0 post.
-Proof.
-  intros Hpre Hp Hpne H1 Hne1 Hf Hfne Hfs H2 Hne2 H3 H4.
-  apply redact_clause.
-  - apply (quiet_no_first match_set 112); [apply match_set_first|exact Hpre].
-  - left. destruct p; [congruence|discriminate].
-  - replace ((p ++ ws1 ++ f ++ ws2 ++ quoted_name u ++ ws3 ++ 61 :: ws4) ++ quote_string pw ++ post)
-      with (p ++ ws1 ++ f ++ ws2 ++ quoted_name u ++ ws3 ++ 61 :: ws4 ++ quote_string pw ++ post).
-    + apply match_set_clause; assumption.
-    + rewrite <- ?app_assoc. cbn [app]. rewrite <- ?app_assoc. reflexivity.
-Qed.
-
-Corollary sanitize_set_ni pre p ws1 f ws2 u ws3 ws4 pw1 pw2 post :
-  Forall (fun c => ci 112 c = false) pre ->
-  spells (ts "password") p -> p <> [] -> all_space ws1 -> ws1 <> [] -> spells (ts "for") f -> f <> [] -> starts_nonspace f ->
-  all_space ws2 -> ws2 <> [] -> all_space ws3 -> all_space ws4 ->
-  redact_all match_set 0 (pre ++ (p ++ ws1 ++ f ++ ws2 ++ quoted_name u ++ ws3 ++ 61 :: ws4) ++ quote_string pw1 ++ post)
-  = redact_all match_set 0 (pre ++ (p ++ ws1 ++ f ++ ws2 ++ quoted_name u ++ ws3 ++ 61 :: ws4) ++ quote_string pw2 ++ post).
-Proof. intros. rewrite !sanitize_set_exact by assumption. reflexivity. Qed.
-
 
 (* ---- the one pass of Sanitize: both clause heads at once ---- *)
 Definition plain (c : Z) : Prop := ci 119 c = false /\ ci 112 c = false.   (* neither w nor p, in any case *)
@@ -261,20 +281,20 @@ Proof.
   - unfold match_any. rewrite <- !app_assoc. rewrite (with_not_set w _ Hw Hwne). apply match_create_clause; assumption.
 Qed.
 
-Theorem sanitize_set pre p ws1 f ws2 u ws3 ws4 pw post :
+Theorem sanitize_set pre p ws1 f ws2 nm ws3 ws4 pw post :
   Forall plain pre ->
   spells (ts "password") p -> p <> [] -> all_space ws1 -> ws1 <> [] -> spells (ts "for") f -> f <> [] -> starts_nonspace f ->
-  all_space ws2 -> ws2 <> [] -> all_space ws3 -> all_space ws4 ->
-  sanitize (pre ++ (p ++ ws1 ++ f ++ ws2 ++ quoted_name u ++ ws3 ++ 61 :: ws4) ++ quote_string pw ++ post)
-  = pre ++ (p ++ ws1 ++ f ++ ws2 ++ quoted_name u ++ ws3 ++ 61 :: ws4) ++ redacted ++ sanitize post.
+  all_space ws2 -> ws2 <> [] -> name_spelling nm -> nm <> [] -> starts_nonspace nm -> all_space ws3 -> all_space ws4 ->
+  sanitize (pre ++ (p ++ ws1 ++ f ++ ws2 ++ nm ++ ws3 ++ 61 :: ws4) ++ quote_string pw ++ post)
+  = pre ++ (p ++ ws1 ++ f ++ ws2 ++ nm ++ ws3 ++ 61 :: ws4) ++ redacted ++ sanitize post.
 Proof.
-  intros Hpre Hp Hpne H1 Hne1 Hf Hfne Hfs H2 Hne2 H3 H4. unfold sanitize.
+  intros Hpre Hp Hpne H1 Hne1 Hf Hfne Hfs H2 Hne2 Hnm Hnmne Hnms H3 H4. unfold sanitize.
   apply redact_clause.
   - apply quiet_plain. exact Hpre.
   - left. destruct p; [congruence|discriminate].
   - unfold match_any.
-    replace ((p ++ ws1 ++ f ++ ws2 ++ quoted_name u ++ ws3 ++ 61 :: ws4) ++ quote_string pw ++ post)
-      with (p ++ ws1 ++ f ++ ws2 ++ quoted_name u ++ ws3 ++ 61 :: ws4 ++ quote_string pw ++ post).
+    replace ((p ++ ws1 ++ f ++ ws2 ++ nm ++ ws3 ++ 61 :: ws4) ++ quote_string pw ++ post)
+      with (p ++ ws1 ++ f ++ ws2 ++ nm ++ ws3 ++ 61 :: ws4 ++ quote_string pw ++ post).
     + rewrite match_set_clause by assumption. reflexivity.
     + rewrite <- ?app_assoc. cbn [app]. rewrite <- ?app_assoc. reflexivity.
 Qed.
@@ -286,12 +306,12 @@ Corollary sanitize_ni_create pre w ws1 p ws0 pw1 pw2 post :
   = sanitize (pre ++ (w ++ ws1 ++ p ++ ws0) ++ quote_string pw2 ++ post).
 Proof. intros. rewrite !sanitize_create by assumption. reflexivity. Qed.
 
-Corollary sanitize_ni_set pre p ws1 f ws2 u ws3 ws4 pw1 pw2 post :
+Corollary sanitize_ni_set pre p ws1 f ws2 nm ws3 ws4 pw1 pw2 post :
   Forall plain pre ->
   spells (ts "password") p -> p <> [] -> all_space ws1 -> ws1 <> [] -> spells (ts "for") f -> f <> [] -> starts_nonspace f ->
-  all_space ws2 -> ws2 <> [] -> all_space ws3 -> all_space ws4 ->
-  sanitize (pre ++ (p ++ ws1 ++ f ++ ws2 ++ quoted_name u ++ ws3 ++ 61 :: ws4) ++ quote_string pw1 ++ post)
-  = sanitize (pre ++ (p ++ ws1 ++ f ++ ws2 ++ quoted_name u ++ ws3 ++ 61 :: ws4) ++ quote_string pw2 ++ post).
+  all_space ws2 -> ws2 <> [] -> name_spelling nm -> nm <> [] -> starts_nonspace nm -> all_space ws3 -> all_space ws4 ->
+  sanitize (pre ++ (p ++ ws1 ++ f ++ ws2 ++ nm ++ ws3 ++ 61 :: ws4) ++ quote_string pw1 ++ post)
+  = sanitize (pre ++ (p ++ ws1 ++ f ++ ws2 ++ nm ++ ws3 ++ 61 :: ws4) ++ quote_string pw2 ++ post).
 Proof. intros. rewrite !sanitize_set by assumption. reflexivity. Qed.
 
 Theorem sanitize_identity t : quiet match_any t [] -> sanitize t = t.
